@@ -99,40 +99,58 @@ def validate_observations(pid, trace_module, observations, shards=None, timeout=
     wd = workdir(pid)
     for i, o in enumerate(observations):
         o['tid'] = i + 1
+    # serialise every observation once; pack them into trace files of bounded size (a TLC process holds the whole file as one
+    # value), at least `shards` files so that all cores are used, largest observations first
+    blobs = [(json.dumps({kk: vv for kk, vv in o.items() if not kk.startswith('_')}, separators=(',', ':')), o['tid']) for o in observations]
+    blobs.sort(key=lambda b: -len(b[0]))
+    total = sum(len(b[0]) for b in blobs)
+    max_bytes = int(os.environ.get('VERIF_TRACE_BYTES', 12_000_000))
     if shards is None:
         shards = max(1, min(NCPU, n))
-    # round-robin by cost (largest first) so big symbols spread over shards
-    order = sorted(range(n), key=lambda i: -observations[i].get('_cost', 1))
-    buckets = [[] for _ in range(shards)]
-    for k, i in enumerate(order):
-        buckets[k % shards].append(observations[i])
-    buckets = [b for b in buckets if b]
+    nfiles = max(shards, -(-total // max_bytes))
+    nfiles = min(nfiles, n)
+    files = [[] for _ in range(nfiles)]
+    sizes = [0] * nfiles
+    for b in blobs:                      # greedy: next blob into the currently smallest file
+        k = sizes.index(min(sizes))
+        files[k].append(b)
+        sizes[k] += len(b[0])
+    files = [f for f in files if f]
 
     def run(k):
         path = os.path.join(wd, f'{tag}_{k}.json')
         with open(path, 'w') as f:
-            json.dump([{kk: vv for kk, vv in o.items() if not kk.startswith('_')} for o in buckets[k]], f, separators=(',', ':'))
-        out, st = run_tlc(trace_module, env={'TRACE_FILE': path}, workers=1,
-                          metadir=os.path.join(wd, f'meta_{tag}_{k}'), timeout=timeout, xmx=xmx)
-        with open(os.path.join(wd, f'{tag}_{k}.out'), 'w') as f:
-            f.write(out)
+            f.write('[' + ','.join(b[0] for b in files[k]) + ']')
+        try:
+            out, st = run_tlc(trace_module, env={'TRACE_FILE': path}, workers=1,
+                              metadir=os.path.join(wd, f'meta_{tag}_{k}'), timeout=timeout, xmx=xmx)
+        finally:
+            if len(files) > 2 * NCPU:      # many files (thorough tiers): do not keep gigabytes of traces
+                try:
+                    os.remove(path)
+                except OSError:
+                    pass
         if not tlc_ok(out, st):
+            with open(os.path.join(wd, f'{tag}_{k}.out'), 'w') as f:
+                f.write(out)
             raise MachineryError(f'TLC failed on shard {k} of {trace_module} (exit {st["exit"]}); see {wd}/{tag}_{k}.out\n' + out[-3000:])
         vs = [_unescape(m) for m in _VERDICT_RE.findall(out)]
         # the Judge action of an observation may be evaluated more than once by TLC; de-duplicate by tid
         byid = {}
         for v in vs:
             byid[v['tid']] = v
-        want = {o['tid'] for o in buckets[k]}
+        want = {b[1] for b in files[k]}
         if set(byid) != want:
+            with open(os.path.join(wd, f'{tag}_{k}.out'), 'w') as f:
+                f.write(out)
             raise MachineryError(f'shard {k}: {len(byid)} verdicts for {len(want)} observations; see {wd}/{tag}_{k}.out')
         return byid, st
 
     verdicts = {}
-    stats = {'states': 0, 'transitions': 0, 'wall_s': 0.0, 'runs': len(buckets)}
+    stats = {'states': 0, 'transitions': 0, 'wall_s': 0.0, 'runs': len(files)}
     t0 = time.time()
-    with ThreadPoolExecutor(max_workers=len(buckets)) as ex:
-        for byid, st in ex.map(run, range(len(buckets))):
+    with ThreadPoolExecutor(max_workers=min(NCPU, len(files))) as ex:
+        for byid, st in ex.map(run, range(len(files))):
             verdicts.update(byid)
             stats['states'] += st['states']
             stats['transitions'] += st['transitions']
